@@ -14,6 +14,7 @@ import importlib
 import json
 import os
 import re
+import shutil
 import subprocess
 import sys
 import time
@@ -119,6 +120,69 @@ class BuildLock:
 def translate():
     rc, out = sh(f"{sys.executable} {VERIF}/tools/translate.py --repo {core.REPO} --out {COQ}/Gen", timeout=300)
     return rc == 0, out.strip()
+
+
+GENREF = os.path.join(VERIF, "genref")
+
+
+def genref_differs():
+    """True when coq/Gen (generated from the tree under check) differs from the committed reference copy genref/
+    (generated from the tree the proofs were developed against)."""
+    if not os.path.isdir(GENREF):
+        return False
+    ref = sorted(f for f in os.listdir(GENREF) if f.endswith(".v"))
+    cur = sorted(f for f in os.listdir(os.path.join(COQ, "Gen")) if f.endswith(".v"))
+    if ref != cur:
+        return True
+    for f in ref:
+        if open(os.path.join(GENREF, f)).read() != open(os.path.join(COQ, "Gen", f)).read():
+            return True
+    return False
+
+
+def build_reference(targets):
+    """The failing-input search needs an executable model.  When the model regenerated from the tree under check no
+    longer builds (or its proofs break), build the development once more in out/refbuild with the REFERENCE generated
+    files (genref/): the hand-written models then run exactly as they were proved, and the cases are judged against them.
+    Returns the directory or None."""
+    if not os.path.isdir(GENREF):
+        return None
+    dst = os.path.join(core.OUT, "refbuild")
+    os.makedirs(dst, exist_ok=True)
+    rc, out = sh(f"rsync -a --delete --exclude Gen/ {COQ}/ {dst}/", timeout=600)
+    if rc != 0:
+        return None
+    gen = os.path.join(dst, "Gen")
+    os.makedirs(gen, exist_ok=True)
+    want = {f for f in os.listdir(GENREF) if f.endswith(".v")}
+    for f in os.listdir(gen):
+        if f.endswith(".v") and f not in want:
+            for ext in (".v", ".vo", ".vos", ".vok", ".glob"):
+                try:
+                    os.unlink(os.path.join(gen, f[:-2] + ext))
+                except OSError:
+                    pass
+    for f in want:
+        src, d = os.path.join(GENREF, f), os.path.join(gen, f)
+        try:
+            same = open(src).read() == open(d).read()
+        except OSError:
+            same = False
+        if not same:
+            shutil.copyfile(src, d)
+        os.utime(d)        # everything that depends on the generated files is rebuilt against the reference
+    files = []
+    for sub in ("Base", "Gen", "Spec", "Model", "Proofs", "Props"):
+        p = os.path.join(dst, sub)
+        if os.path.isdir(p):
+            files += sorted(f"{sub}/{f}" for f in os.listdir(p) if f.endswith(".v"))
+    with open(os.path.join(dst, "_CoqProject"), "w") as fh:
+        fh.write("-Q . DH\n" + "\n".join(files) + "\n")
+    rc, out = sh("coq_makefile -f _CoqProject -o Makefile", cwd=dst, timeout=120)
+    if rc != 0:
+        return None
+    rc, out = sh("timeout 3000 make -j8 " + " ".join(targets), cwd=dst, timeout=3030)
+    return dst if rc == 0 else None
 
 
 def enclosing_statement(path, line):
@@ -285,6 +349,13 @@ def check(prop, tier, seed, replay=None, only_suite=None, ncases=None):
     if not mok and not pfail:
         for f in mfail:
             tie_broken.append(("model-build", f"{f['file']}:{f['line']} {f['statement']}: {f['error']}"))
+    # the regenerated model does not build / prove: search for a failing input with the reference model
+    if (not mok or not pok or not ok) and replay is None and genref_differs():
+        with BuildLock():
+            ref = build_reference(model_targets + [props_target])
+        if ref:
+            core.COQ_EVAL = ref
+            info["reference_model"] = "cases are evaluated against out/refbuild (generated files from genref/)"
     thms = theorems_of(mod.PROPS_FILE)
     assum = None
     discharged = 0
